@@ -208,7 +208,14 @@ def run_gm(case):
         alg = copy.deepcopy(alg)
         x = alg.x
         sig += "|deepcopy"
+    sched = (not case["acc"]) and sum(case["rs"]) % 5 == 4 and not single and forked is None
+    if sched:
+        sig += "|alpha-reassigned"
     while not alg.done():
+        if sched and k == 3:
+            # a hand-written step schedule: the public alpha re-assigned on the live solver
+            # (every value <= 1/L): each update still is a descent step
+            alg.alpha = alpha * 0.5
         alg.update()
         k += 1
         if single and x.dtype != (np.complex64 if cplx else np.float32):
@@ -233,7 +240,8 @@ def run_gm(case):
                 return violated(sig, "objective increased at update %d: %.12g -> %.12g with "
                                 "alpha = %.3g/L" % (k, Fprev, Fk, case["frac"]), wit,
                                 mech="gm-monotone")
-            bound = d0 / (2 * alpha * k) * (1 + 1e-6) + (1e-9 + slack) * max(1.0, abs(Fs))
+            bound = d0 / (2 * (alpha * 0.5 if sched else alpha) * k) * (1 + 1e-6) + (
+                1e-9 + slack) * max(1.0, abs(Fs))
             name = "ISTA"
         else:
             bound = 2 * d0 / (alpha * (k + 1) ** 2) * (1 + 1e-6) + (1e-9 + slack) * max(
